@@ -260,6 +260,12 @@ type zeroer struct{ A int }
 
 func (z zeroer) IsZero() bool { return z.A == 5 }
 
+// zerr: an error with an IsZero method.
+type zerr struct{ z bool }
+
+func (z zerr) Error() string { return "zerr" }
+func (z zerr) IsZero() bool  { return z.z }
+
 type plain struct{ A int }
 
 // coalTable: Coal over every argument tuple of length 0..3 from vals, for one comparable type; the
@@ -304,6 +310,35 @@ func coalTable[T comparable](tname string, vals []T) {
 	}
 	if typ.Zero[T]() != zero || typ.DerefZero[*T](nil) != zero {
 		e.Fail("Zero|result", map[string]any{"type": tname}, "Zero[%s]() / DerefZero(nil) is not the zero value", tname)
+	}
+}
+
+// isZeroTable: IsZero over every ordered pair of values of one static type (each call directly
+// preceded by each other call: an answer or a "this type has no IsZero method" verdict remembered per
+// static type is wrong for interface types, whose dynamic types differ from call to call).
+func isZeroTable[T comparable](tname string, vals []T) {
+	var zero T
+	ref := func(v T) bool {
+		if v == zero {
+			return true
+		}
+		if z, ok := any(v).(interface{ IsZero() bool }); ok {
+			return z.IsZero()
+		}
+		return false
+	}
+	for _, a := range vals {
+		for _, b := range vals {
+			for _, c := range vals {
+				e.Input(true)
+				e.Call()
+				ga, gb, gc := typ.IsZero(a), typ.IsZero(b), typ.IsZero(c)
+				if ga != ref(a) || gb != ref(b) || gc != ref(c) {
+					e.Fail("IsZero|sequence", map[string]any{"type": tname, "values": fmt.Sprintf("%#v, %#v, %#v", a, b, c)}, "IsZero[%s] called on %#v, %#v, %#v in this order = %v, %v, %v; want %v, %v, %v", tname, a, b, c, ga, gb, gc, ref(a), ref(b), ref(c))
+					return
+				}
+			}
+		}
 	}
 }
 
@@ -536,6 +571,20 @@ func main() {
 			coalTable("uint8", []uint8{0, 1, 255})
 			coalTable("string", []string{"", "\x00", " ", "0"})
 			coalTable("chan int", []chan int{nil, make(chan int)})
+		}
+		{
+			zi := 0
+			cet := time.FixedZone("CET", 3600)
+			isZeroTable("any", []any{42, time.Time{}.In(cet), nil, 0, "", zeroer{5}, zeroer{0}, zeroer{1}, &zeroer{5}, &zeroer{0}, (*int)(nil), &zi, false, time.Unix(0, 0), plain{0}, plain{1}})
+			isZeroTable("any", []any{time.Time{}.In(cet), zeroer{5}, 42})
+			isZeroTable("interface{IsZero() bool}", []interface{ IsZero() bool }{nil, zeroer{5}, zeroer{0}, zeroer{1}, time.Time{}.In(cet), time.Unix(0, 0), &zeroer{5}})
+			isZeroTable("fmt.Stringer", []fmt.Stringer{nil, time.Time{}.In(cet), time.Unix(0, 0), time.Duration(0), time.Duration(1)})
+			isZeroTable("error", []error{nil, errors.New(""), zerr{true}, zerr{false}})
+			isZeroTable("zeroer", []zeroer{{0}, {5}, {1}})
+			isZeroTable("*zeroer", []*zeroer{nil, {0}, {5}, {1}})
+			isZeroTable("time.Time", []time.Time{{}, time.Time{}.In(cet), time.Time{}.Local(), time.Unix(0, 0)})
+			isZeroTable("float64", []float64{0, math.Copysign(0, -1), math.NaN(), 1})
+			isZeroTable("[1]any", [][1]any{{nil}, {0}, {zeroer{5}}})
 		}
 		if typ.Zero[int]() != 0 || typ.Zero[string]() != "" || typ.Zero[*int]() != nil || typ.Zero[plain]() != (plain{}) || typ.Zero[error]() != nil {
 			e.Fail("Zero|result", nil, "Zero[T]() is not the zero value")
